@@ -179,6 +179,22 @@ pub fn exec(op: &str, args: &[&str], out: &mut Out) -> Option<()> {
             }
         }
     }
+    // wave 11 (C17-j): the same for the MIXED comparisons: b taken as a view of the PointerBuf's own buffer (what parent(), split_at(i).0,
+    // strip_suffix hand out) must compare with that PointerBuf like an equal text elsewhere does
+    if ba.as_str().starts_with(b.as_str()) {
+        if let Ok(pv) = Pointer::parse(&ba.as_str()[..b.len()]) {
+            let r: &Pointer = pv;
+            if (*r == ba) != want_eq || (ba == *r) != want_eq || (r == ba) != want_eq || (ba == r) != want_eq {
+                bad.push("aliased-view-of-buf".into());
+            }
+            if let Some(par) = ba.parent() {
+                let same = par.as_str() == ba.as_str();
+                if (*par == ba) != same || (ba == *par) != same || (par == ba) != same || (ba == par) != same {
+                    bad.push("parent-vs-own-buf".into());
+                }
+            }
+        }
+    }
     let word = match want {
         Ordering::Less => "lt",
         Ordering::Equal => "eq",
